@@ -516,6 +516,52 @@ def fallback_pairs(rnd, nscan):
     return [j for j in vlib.pool_map(_scan_fallback, jobs, chunksize=8) if j]
 
 
+def _scan_plateau(job):
+    """(text, bg, large, vr) -> the job if a hard witness exists (dE >= 1.05) AND the documented lightness search, asked with
+    growing tolerances 0.8, 1.0, ... 2.4, returns the same colour for three tolerances in a row and a different one later (the
+    8-bit candidates on this text's lightness line are unevenly spaced).  Used only to SELECT inputs."""
+    vlib.use_repo()
+    t, b, large, vr = job
+    tq = REQ[(large, vr)]
+    w = witness_scan(t, b, tq)
+    if not (isinstance(w, tuple) and w[1] >= 10500):
+        return None
+    import importlib
+    opt = importlib.import_module("cm_colors.core.optimisation")
+    f = getattr(opt, "binary_search_lightness", None)
+    f = getattr(f, "__wrapped__", f)
+    if f is None:
+        return None
+    res = []
+    for k in range(9):
+        try:
+            res.append(f(tuple(t), tuple(b), 0.8 + 0.2 * k, 4.5 if large else 7.0, large))
+        except Exception:
+            return None
+    for i in range(len(res) - 3):
+        if res[i] is not None and res[i] == res[i + 1] == res[i + 2] and any(r != res[i] for r in res[i + 3:]):
+            return job
+    return None
+
+
+def plateau_pairs(rnd, nscan):
+    jobs = []
+    for _ in range(nscan):
+        large, vr = bool(rnd.getrandbits(1)), bool(rnd.getrandbits(1))
+        tq = REQ[(large, vr)]
+        g_ = rnd.randrange(8, 248)
+        c = tuple(min(255, max(0, g_ + rnd.randint(-6, 6))) for _ in range(3))
+        lt = refs.wcag_lum(c)
+        want = tq * rnd.uniform(0.93, 0.99)
+        lb = (lt + 0.05) / want - 0.05 if lt > 0.2 else want * (lt + 0.05) - 0.05
+        if not 0 <= lb <= 1:
+            continue
+        g = min(range(256), key=lambda v: abs(refs._LIN[v] - lb))
+        if tq * 0.92 <= refs.wcag_ratio(c, (g, g, g)) < tq:
+            jobs.append((c, (g, g, g), large, vr))
+    return [j for j in vlib.pool_map(_scan_plateau, jobs, chunksize=8) if j]
+
+
 def extreme_only(rnd, tries=20000):
     """(text, bg, very_readable, large): the text is a hair away from white (or black) and only the extreme itself - the
     end point of the text's lightness line, reached only when every clipped channel is rounded to 255 (or 0) - clears the
@@ -545,6 +591,19 @@ def extreme_only(rnd, tries=20000):
                 return c, bg, vr, large
     a, b = near_threshold(rnd, 4.5, (0.0, 0.05))
     return a, b, False, False
+
+
+_SPECIAL = None
+
+
+def special_colour(rnd, kind=None):
+    """a colour from the catalogue of numerically special OKLCH coordinates (tools/gen_special_colours.py); inputs only"""
+    global _SPECIAL
+    if _SPECIAL is None:
+        with open(os.path.join(os.path.dirname(os.path.abspath(__file__)), "special_colours.json")) as f:
+            _SPECIAL = json.load(f)
+    k = kind or rnd.choice(sorted(_SPECIAL))
+    return tuple(rnd.choice(_SPECIAL[k]))
 
 
 _RAZOR = None
